@@ -296,7 +296,7 @@ var StructTypes = []reflect.Type{
 	T(CN1{}), T(CN2{}), T(NMapHolder{}),
 	T(ManyF{}), T(ManyL{}),
 	T(Node{}), T(FNode{}), T(Ping{}), T(Pong{}), T(ENode{}), T(DeepNil{}),
-	T(MapAndLists{}), T(Wrap{}), T(WrapList{}), T(PtrTime{}), T(Named{}), T(SelfAny{}), T(SelfAnyList{}), T(PtrConts{}), T(MutA{}), T(MutB{}), T(MpKeyStruct{}), T(MutGraph{}), T(NonASCII{}), T(RecConts{}), T(AmpTop{}), T(AmpN{}), T(FloatMix{}), T(Forest{}), T(CaseTwins{}), T(Bags{}), T(BaseEnt{}), T(PlainEnt{}), T(AccountEnt{}), T(PtrBaseEnt{}), T(Ents{}),
+	T(MapAndLists{}), T(Wrap{}), T(WrapList{}), T(PtrTime{}), T(Named{}), T(SelfAny{}), T(SelfAnyList{}), T(PtrConts{}), T(MutA{}), T(MutB{}), T(MpKeyStruct{}), T(MutGraph{}), T(NonASCII{}), T(RecConts{}), T(AmpTop{}), T(AmpN{}), T(FloatMix{}), T(Forest{}), T(CaseTwins{}), T(Bags{}), T(PtrNamed{}), T(BaseEnt{}), T(PlainEnt{}), T(AccountEnt{}), T(PtrBaseEnt{}), T(Ents{}),
 }
 
 // TypeByName finds a zoo struct type.
@@ -637,6 +637,12 @@ type Bags struct {
 	B2 Bag2
 	BB []Bag2
 }
+
+// PtrNamed declares HessianCodecName on the pointer receiver: a value of the type does not have the method,
+// a pointer to it does.
+type PtrNamed struct{ A int32 }
+
+func (*PtrNamed) HessianCodecName() string { return "com.example.PtrNamed" }
 
 // CaseTwins: exported fields that differ only in the case of a later letter (their wire names differ too:
 // only the first letter is lower-cased).
